@@ -8,7 +8,7 @@ import numpy as np
 
 ID = "C11"
 PROPS_FILE = "theories/Props/C11.v"
-EXTRACT = ("theories/Extract/XC11.v", "c11", ["entry_run", "entry_check", "entry_fmul", "entry_otsu"])
+EXTRACT = ("theories/Extract/XC11.v", "c11", ["entry_run", "entry_ref", "entry_check", "entry_fmul", "entry_otsu"])
 PYX = {}
 CASE_TIMEOUT = 120
 METHODS = ["Otsu", "MoG", "Background", "RobustBackground", "RidlerCalvard", "Kapur", "MCT"]
@@ -358,8 +358,9 @@ def model(ctx, cases, outs):
                 continue
             ti.append(k)
             args.append(_run_arg(c, o))
-    for k, r in zip(ti, ctx.run_model("entry_run", args)):
-        res[k] = r
+    # the interpreter on the regenerated program AND the specified closed form (Spec.ThresholdSpec.ref_run)
+    for k, r, r2 in zip(ti, ctx.run_model("entry_run", args), ctx.run_model("entry_ref", args)):
+        res[k] = [r, r2]
     oi = [k for k, c in enumerate(cases) if c["fn"] == "otsu" and not _bad(outs[k])]
     for k, r in zip(oi, ctx.run_model("entry_otsu", [cases[k]["ints"] for k in oi])):
         res[k] = r
@@ -370,33 +371,41 @@ def _fr(p):
     return Fraction(p[0], p[1])
 
 
+def _cmp_run(out, m):
+    if not (isinstance(m, list) and len(m) == 2):
+        return "rejected the call: %s" % (str(m)[:200],)
+    ml, mg = m
+    if mg[0] != 0 or _fr(mg[1]) != Fraction(out["g"]):
+        return "global threshold: implementation %r, model %s" % (out["g"], mg)
+    if out["scalar"]:
+        if ml[0] != 0 or _fr(ml[1]) != Fraction(out["local"]):
+            return "local (scalar) threshold: implementation %r, model %s" % (out["local"], ml)
+        return None
+    if not out["shape_ok"]:
+        return "raw and final local thresholds have different shapes"
+    if ml[0] != 1 or len(ml[1]) != len(out["local_s"]):
+        return "model local threshold is not an array of the same length"
+    for i, (a, b) in enumerate(zip(ml[1], out["local_s"])):
+        if _fr(a) != Fraction(b):
+            return "local threshold at flat index %d (raw %r): implementation %r, model %s = %r" % (
+                out["idx"][i], out["raw_l"][i], b, a, float(_fr(a)))
+    return None
+
+
 def compare(case, out, m):
     if case["fn"] == "thr":
         if _rejected(case):
             if not (isinstance(out, dict) and out.get("exc") == "TypeError"):
                 return "range limit None with an array modifier: expected TypeError, implementation gave %s" % (str(out)[:200],)
-            return None if m == [] else "model accepts a None range limit with an array modifier"
+            return None if m == [[], []] else "model accepts a None range limit with an array modifier"
         if _bad(out):
             return "implementation raised/crashed: %s" % (str(out)[:300],)
         if m == "nonfinite":
             return None
-        if not (isinstance(m, list) and len(m) == 2):
-            return "model rejected the call: %s" % (str(m)[:200],)
-        ml, mg = m
-        if mg[0] != 0 or _fr(mg[1]) != Fraction(out["g"]):
-            return "global threshold: implementation %r, model %s" % (out["g"], mg)
-        if out["scalar"]:
-            if ml[0] != 0 or _fr(ml[1]) != Fraction(out["local"]):
-                return "local (scalar) threshold: implementation %r, model %s" % (out["local"], ml)
-            return None
-        if not out["shape_ok"]:
-            return "raw and final local thresholds have different shapes"
-        if ml[0] != 1 or len(ml[1]) != len(out["local_s"]):
-            return "model local threshold is not an array of the same length"
-        for i, (a, b) in enumerate(zip(ml[1], out["local_s"])):
-            if _fr(a) != Fraction(b):
-                return "local threshold at flat index %d (raw %r): implementation %r, model %s = %r" % (
-                    out["idx"][i], out["raw_l"][i], b, a, float(_fr(a)))
+        for which, mm in zip(("model of the regenerated program", "specified closed form"), m):
+            d = _cmp_run(out, mm)
+            if d:
+                return "%s: %s" % (which, d)
         return None
     # otsu: Q model on the integer data; compare when the arg-min is well separated
     if _bad(out):
